@@ -149,4 +149,142 @@ theorem conflict_outcome (le : P → P → Bool)
   rw [hA, hB] at pa pb
   exact ⟨by simpa [resolve] using pa, by simpa [resolve] using pb, ca, cb⟩
 
+
+theorem swapAct_swapAct (a : Action) : swapAct (swapAct a) = a := by cases a <;> rfl
+
+theorem winner_comm (ge : C → C → Bool) (tot : ∀ a b, ge a b = true ∨ ge b a = true)
+    (anti : ∀ a b, ge a b = true → ge b a = true → a = b) (xa yb : C) : winner ge yb xa = winner ge xa yb := by
+  unfold winner
+  cases h1 : ge xa yb <;> cases h2 : ge yb xa <;> simp
+  · rcases tot xa yb with h | h <;> simp_all
+  · exact (anti xa yb h1 h2).symm
+
+theorem loser_comm (ge : C → C → Bool) (tot : ∀ a b, ge a b = true ∨ ge b a = true)
+    (anti : ∀ a b, ge a b = true → ge b a = true → a = b) (xa yb : C) : loser ge yb xa = loser ge xa yb := by
+  unfold loser
+  cases h1 : ge xa yb <;> cases h2 : ge yb xa <;> simp
+  · rcases tot xa yb with h | h <;> simp_all
+  · exact anti xa yb h1 h2
+
+theorem shape_swap (x y : Option C) (act : Action) (h : Shape x y act) : Shape y x (swapAct act) := by
+  cases h with
+  | noop => exact .noop
+  | conv v h1 h2 => exact .conv v h2 h1
+  | ab v h1 => exact .ba v h1
+  | ba v h1 => exact .ab v h1
+  | delA h1 => exact .delB h1
+  | delB h1 => exact .delA h1
+  | dvmA v h1 h2 => exact .dvmB v h2 h1
+  | dvmB v h1 h2 => exact .dvmA v h2 h1
+  | both xa yb h1 h2 => exact .both yb xa h2 h1
+
+/-- executing the mirrored action on the mirrored pair gives the mirrored result -/
+theorem resolve_swap (ge : C → C → Bool) (tot : ∀ a b, ge a b = true ∨ ge b a = true)
+    (anti : ∀ a b, ge a b = true → ge b a = true → a = b) (x y : Option C) (act : Action) (h : Shape x y act) :
+    resolve ge (swapAct act) y x = ((resolve ge act x y).2, (resolve ge act x y).1) := by
+  cases h with
+  | noop => simp [swapAct, resolve]
+  | conv v h1 h2 => subst h1 h2; simp [swapAct, resolve]
+  | ab v h1 => subst h1; simp [swapAct, resolve]
+  | ba v h1 => subst h1; simp [swapAct, resolve]
+  | delA h1 => subst h1; simp [swapAct, resolve]
+  | delB h1 => subst h1; simp [swapAct, resolve]
+  | dvmA v h1 h2 => subst h1 h2; simp [swapAct, resolve]
+  | dvmB v h1 h2 => subst h1 h2; simp [swapAct, resolve]
+  | both xa yb h1 h2 => subst h1 h2; simp [swapAct, resolve, winner_comm ge tot anti]
+
+theorem ccName_swap (ge : C → C → Bool) (tot : ∀ a b, ge a b = true ∨ ge b a = true)
+    (anti : ∀ a b, ge a b = true → ge b a = true → a = b) (cname : P → C → P) (p : P) (x y : Option C) (act : Action) :
+    ccName ge cname p (swapAct act) y x = ccName ge cname p act x y := by
+  cases act with
+  | conflict k =>
+    cases k with
+    | bothChanged => cases x <;> cases y <;> simp [swapAct, ccName, loser_comm ge tot anti]
+    | deleteVsModify => cases x <;> cases y <;> simp [swapAct, ccName]
+  | _ => cases x <;> cases y <;> simp [swapAct, ccName]
+
+/-- the state with the two roots named the other way round -/
+def swapState (s : State P C) : State P C := { A := s.B, B := s.A, arch := s.arch }
+
+theorem plan_swap (le : P → P → Bool) (s : State P C) (p : P) (act : Action) :
+    (p, act) ∈ bisyncPlan le (swapState s) ↔ (p, swapAct act) ∈ bisyncPlan le s := by
+  unfold bisyncPlan swapState
+  exact swap_plan le _ _ _ _ p act
+
+theorem nnc_swap (le : P → P → Bool) (ge : C → C → Bool) (tot : ∀ a b, ge a b = true ∨ ge b a = true)
+    (anti : ∀ a b, ge a b = true → ge b a = true → a = b) (cname : P → C → P) (s : State P C)
+    (nnc : NoNameClash ge cname s.A s.B (bisyncPlan le s)) :
+    NoNameClash ge cname (swapState s).A (swapState s).B (bisyncPlan le (swapState s)) := by
+  refine ⟨?_, ?_⟩
+  · intro p act ln hm hc
+    have hm' := (plan_swap le s p act).mp hm
+    have hc' : ccName ge cname p (swapAct act) (get s.A p) (get s.B p) = some ln := by
+      rw [ccName_swap ge tot anti cname p (get s.B p) (get s.A p) act]; exact hc
+    obtain ⟨h1, h2⟩ := nnc.notLive p _ ln hm' hc'
+    exact ⟨h2, h1⟩
+  · intro p act p' act' ln hm hm' hc hc'
+    have e1 : ccName ge cname p (swapAct act) (get s.A p) (get s.B p) = some ln := by
+      rw [ccName_swap ge tot anti cname p (get s.B p) (get s.A p) act]; exact hc
+    have e2 : ccName ge cname p' (swapAct act') (get s.A p') (get s.B p') = some ln := by
+      rw [ccName_swap ge tot anti cname p' (get s.B p') (get s.A p') act']; exact hc'
+    exact nnc.distinct p _ p' _ ln ((plan_swap le s p act).mp hm) ((plan_swap le s p' act').mp hm') e1 e2
+
+/-- C06 (argument order, WHOLE RUN under NoNameClash): naming the two roots the other way round does not
+change which bytes end up at which path — for a total, antisymmetric `ge` (the byte-wise order on
+BLAKE3 hashes), after `bisync B A` every path holds on both sides exactly what it holds after
+`bisync A B`. -/
+theorem swap_run (le : P → P → Bool)
+    (trans : ∀ a b c, le a b → le b c → le a c) (total : ∀ a b, le a b || le b a)
+    (antisymm : ∀ a b, le a b → le b a → a = b) (ge : C → C → Bool)
+    (tot : ∀ a b, ge a b = true ∨ ge b a = true) (anti : ∀ a b, ge a b = true → ge b a = true → a = b)
+    (cname : P → C → P) (s : State P C)
+    (nnc : NoNameClash ge cname s.A s.B (bisyncPlan le s)) (q : P) :
+    get (bisync le ge cname (swapState s)).state.A q = get (bisync le ge cname s).state.A q ∧
+    get (bisync le ge cname (swapState s)).state.B q = get (bisync le ge cname s).state.B q := by
+  have nnc' := nnc_swap le ge tot anti cname s nnc
+  obtain ⟨hact, _, _, hrest⟩ := plan_facts le trans total antisymm s
+  obtain ⟨hact', _, _, hrest'⟩ := plan_facts le trans total antisymm (swapState s)
+  obtain ⟨l, n, hrun, inv, _⟩ := bisync_run le trans total antisymm ge cname s nnc
+  obtain ⟨l', n', hrun', inv', _⟩ := bisync_run le trans total antisymm ge cname (swapState s) nnc'
+  rw [bisync_of_run le ge cname s l n hrun, bisync_of_run le ge cname (swapState s) l' n' hrun']
+  have hconv := runInv_converged ge cname s.A s.B (baseOf s) _ l hact hrest inv
+  have hconv' := runInv_converged ge cname (swapState s).A (swapState s).B (baseOf (swapState s)) _ l' hact' hrest' inv'
+  suffices h : get l'.A q = get l.A q by
+    exact ⟨h, by rw [← hconv' q, ← hconv q]; exact h⟩
+  by_cases h1 : ∃ act, (q, act) ∈ bisyncPlan le s
+  · obtain ⟨act, hm⟩ := h1
+    have hm' : (q, swapAct act) ∈ bisyncPlan le (swapState s) := by
+      rw [plan_swap, swapAct_swapAct]; exact hm
+    have hs : Shape (get s.A q) (get s.B q) act := by rw [hact q act hm]; exact shape_of_reconcile _ _ _
+    rw [(inv'.atPath q _ hm').1]
+    show (resolve ge (swapAct act) (get s.B q) (get s.A q)).1 = _
+    rw [resolve_swap ge tot anti _ _ act hs, (inv.atPath q act hm).1]
+    exact (resolve_eq ge _ _ (baseOf s q) act (hact q act hm)).symm
+  · by_cases h2 : ∃ p act, (p, act) ∈ bisyncPlan le s ∧ ccName ge cname p act (get s.A p) (get s.B p) = some q
+    · obtain ⟨p, act, hm, hc⟩ := h2
+      have hm' : (p, swapAct act) ∈ bisyncPlan le (swapState s) := by
+        rw [plan_swap, swapAct_swapAct]; exact hm
+      have hc' : ccName ge cname p (swapAct act) (get (swapState s).A p) (get (swapState s).B p) = some q := by
+        show ccName ge cname p (swapAct act) (get s.B p) (get s.A p) = some q
+        rw [ccName_swap ge tot anti]; exact hc
+      obtain ⟨xa, yb, e1, e2, hA, _⟩ := inv.atCopy p act q hm hc
+      obtain ⟨xa', yb', e1', e2', hA', _⟩ := inv'.atCopy p _ q hm' hc'
+      have e1'' : get s.B p = some xa' := e1'
+      have e2'' : get s.A p = some yb' := e2'
+      rw [e1] at e2''; rw [e2] at e1''
+      cases e1''; cases e2''
+      rw [hA', hA, loser_comm ge tot anti]
+    · have hnt : ¬ touched ge cname s.A s.B (bisyncPlan le s) q := by
+        rintro (h | h)
+        · exact h1 h
+        · exact h2 h
+      have hnt' : ¬ touched ge cname (swapState s).A (swapState s).B (bisyncPlan le (swapState s)) q := by
+        rintro (⟨act, hm⟩ | ⟨p, act, hm, hc⟩)
+        · exact h1 ⟨_, (plan_swap le s q act).mp hm⟩
+        · refine h2 ⟨p, swapAct act, (plan_swap le s p act).mp hm, ?_⟩
+          rw [ccName_swap ge tot anti cname p (get s.B p) (get s.A p) act]; exact hc
+      rw [(inv'.untouched q hnt').1, (inv.untouched q hnt).1]
+      show get s.B q = get s.A q
+      exact (noop_eq _ _ _ (hrest q (fun act hm => h1 ⟨act, hm⟩))).symm
+
 end Copia.C06
